@@ -35,7 +35,7 @@ pub fn info() -> PropInfo {
         rule: "cases = (document, configuration, chunking, sync/async source, fault plan). For every document and chunking the fault-free run (read_event_into*, with read_to_end_into* skips after some start events in a third of the groups) is recorded and EVERY refill (fill_buf) call index of that run is used as a fault point, for 'interrupted' repeated 1-3 times and for four other error kinds; plus random multi-interrupt plans. Interrupts: the record sequence (events, errors, positions) must equal the fault-free one. Other kinds: the records before the first I/O error equal the same-length prefix of the fault-free run and that error is Error::Io carrying the injected kind and marker text. Non-trivial = the (first) fault lands strictly inside a markup construct, i.e. after its '<' was consumed and before its end. Two further enumerations vary SIZE and OFFSET: fourteen construct kinds (text, long name, quoted value with '>', many attributes, blanks inside tags, comment / CDATA / PI bodies with near-terminators, DOCTYPE with nested brackets, blank runs around text, reference runs, declaration, deep nesting) with an inner length 0..=70 placed after a prefix of 0..=130 bytes, and large inputs whose variable part is 255..70 001 bytes long (block-wise scanners, buffer growth, positions beyond 255 / 65 535, default BufReader capacity).",
         assumptions: &["what the reader does after it returned an I/O error is not asserted (the property does not say)", "the fault point is a refill call that the fault-free run makes, so the fault is always reached"],
         level: "fault_enumeration",
-        variants: &["full"],
+        variants: &["full", "min"],
     }
 }
 
